@@ -1,6 +1,8 @@
 """C16 - datetime construction, arithmetic and ISO text are correct in any time zone."""
 
+import concurrent.futures
 import datetime
+import enum
 import json
 import os
 import re
@@ -35,9 +37,21 @@ ASSUMPTIONS = [
     'standard relative-error model of IEEE-754 double arithmetic (|delta| <= 2^-53 per operation)',
     'CPython re: the two anchored ISO patterns are re-implemented by hand-written scanners over ASCII; tied by Gen/Regex + correspondence',
 ]
-TRUSTED = ['harness/props/c16_tzworker.py (Python side per TZ in a subprocess); zoneinfo + libc as reference for UTC offsets and existence of local times']
+TRUSTED = ['harness/props/c16_tzworker.py (Python side per TZ in a subprocess); zoneinfo + libc as reference for UTC offsets and existence of local times; '
+           'datetime.timezone(fixed offset) as reference zone for POSIX fixed-offset TZ strings']
 
 ZONES = ['UTC', 'America/New_York', 'Europe/London', 'Asia/Kolkata', 'Asia/Kathmandu', 'Australia/Lord_Howe', 'Pacific/Chatham', 'Etc/GMT+12']
+# "whatever that zone is": further host configurations, each run at a reduced budget.
+#  * always: the zones whose offset is negative AND has a minute part (the sign and the minute part of the offset text interact), and a
+#    negative offset of less than one hour given as a POSIX fixed-offset TZ string (no tz database entry has a whole-minute one today)
+#  * a per-seed rotating choice from a pool of zones picked by class (southern-hemisphere DST, DST at midnight, negative DST, +14:00,
+#    :45 offsets, a skipped calendar day, 2 h DST, historic half-hour changes, ...), random POSIX fixed offsets -23:59..+23:59, and random
+#    names out of everything zoneinfo lists on this machine
+ZONES_ALWAYS = ['America/St_Johns', 'Pacific/Marquesas', '<-0030>0:30']
+ZONE_POOL = ['Australia/Sydney', 'America/Santiago', 'Europe/Dublin', 'Pacific/Kiritimati', 'Pacific/Pago_Pago', 'Africa/Casablanca', 'Asia/Tehran',
+             'Australia/Eucla', 'Pacific/Apia', 'Antarctica/Troll', 'America/Caracas', 'Africa/Monrovia', 'Europe/Berlin', 'America/Havana',
+             'Asia/Pyongyang', 'America/Sao_Paulo', 'Pacific/Norfolk', 'Asia/Kabul', 'Asia/Yangon', 'America/Los_Angeles', 'Africa/Cairo',
+             'Europe/Lisbon', 'America/Nuuk', 'Asia/Gaza', 'America/Asuncion', 'Australia/Adelaide', 'Asia/Colombo', 'Pacific/Tongatapu']
 ZONEINFO_DIR = '/usr/share/zoneinfo'
 WORKER = os.path.join(os.path.dirname(os.path.abspath(__file__)), 'c16_tzworker.py')
 CORPUS = os.path.join(fw.VERIF, 'harness', 'corpus', 'C16.jsonl')
@@ -142,6 +156,52 @@ def call_expr(name, args):
 
 
 GETTERS = ['datetimeYear', 'datetimeMonth', 'datetimeDay', 'datetimeHour', 'datetimeMinute', 'datetimeSecond', 'datetimeMillisecond']
+
+
+class HostInt(int):
+    """Host-boundary numbers: what an embedding application may pass where BareScript expects a number."""
+
+
+class HostFloat(float):
+    pass
+
+
+def host_number(n, kind):
+    if kind == 'int':
+        return int(n)
+    if kind == 'intsub':
+        return HostInt(n)
+    if kind == 'floatsub':
+        return HostFloat(n)
+    if kind == 'intenum':
+        return enum.IntEnum('HostEnum', {'N': int(n)}).N        # pylint: disable=no-member
+    return float(n)
+
+
+NUMBER_KINDS = ['float', 'int', 'intsub', 'floatsub', 'intenum']
+_NEW_SCRIPT = {}
+
+
+def impl_new_host(args, idx):
+    """datetimeNew on host-boundary numbers (int / float subclasses, IntEnum members, mixed with plain ones) -> parts"""
+    vals = [host_number(a, NUMBER_KINDS[(idx + i) % len(NUMBER_KINDS)]) for i, a in enumerate(args)]
+    return parts(call_lib('datetimeNew', vals)[0])
+
+
+def impl_new_script(args):
+    """datetimeNew + the getters inside execute_script (arguments are host globals) -> (parts, getters)"""
+    impl = fw.impl()
+    if 'script' not in _NEW_SCRIPT:
+        _NEW_SCRIPT['script'] = impl['parser'].parse_script(
+            'x = datetimeNew(a0, a1, a2, a3, a4, a5, a6)\nreturn arrayNew(x, ' + ', '.join(g + '(x)' for g in GETTERS) + ')\n')
+    glob = {'a%d' % i: float(a) for i, a in enumerate(args)}
+    try:
+        res = impl['runtime'].execute_script(_NEW_SCRIPT['script'], {'globals': glob, 'maxStatements': 1000})
+    except Exception as exc:  # pylint: disable=broad-except
+        return {'error': type(exc).__name__}, None
+    if not isinstance(res, list) or len(res) != 8:
+        return {'error': 'script result ' + type(res).__name__}, None
+    return parts(res[0]), [num_out(v) for v in res[1:]]
 
 
 def impl_new(args):
@@ -261,17 +321,32 @@ def new_tags(a, res):
 def stream_new(ctx, n_random, n_edge, seed_name='dt-new'):
     st = ctx.stream('dt-new', 'datetimeNew on 7 integer components (years 100-9000, months -30..40, days +-10000, time parts +-5000; plus tagged '
                               'out-of-quantifier edge cases: year range failure, argument-model bounds), each as floats, ints and through '
-                              'evaluate_expression, plus the 7 getters; non-trivial = some component needs normalising')
+                              'evaluate_expression, plus the 7 getters; every 4th (thorough: 8th) case also with host-boundary numbers (int/float subclasses, IntEnum '
+                              'members - the model sees the same integers) and as many inside execute_script with the components as host '
+                              'globals; non-trivial = some component needs normalising')
     rng = ctx.rng(seed_name)
     cases = [rec['args'] for rec in corpus('dt-new')]
     cases += list(boundary_grid())
     cases += [rand_args(rng) for _ in range(n_random)]
     cases += [edge_args(rng) for _ in range(n_edge)]
     resps = ctx.driver.batch([{'op': 'new', 'args': a} for a in cases])
-    for a, resp in zip(cases, resps):
+    step = ctx.scale(4, 8)
+    for idx, (a, resp) in enumerate(zip(cases, resps)):
         got = impl_new(a)
         want = oracle_new(a)
         st.case(a, nontrivial=not is_normal(a), tags=new_tags(a, want))
+        # host boundary (every 4th case each; every 8th in the thorough tier): components given as int/float subclasses and IntEnum members; the same call inside
+        # execute_script with the components as host globals. Same oracle; the model sees the same integers.
+        if idx % step == 0:
+            got_h = impl_new_host(a, idx // 4)
+            if got_h != want:
+                ctx.witness('ordinal-arithmetic', {'args': a, 'spelling': 'hostnum', 'idx': idx // 4}, want, got_h)
+        elif idx % step == 2:
+            got_s, getters_s = impl_new_script(a)
+            if got_s != want:
+                ctx.witness('ordinal-arithmetic', {'args': a, 'spelling': 'script'}, want, got_s)
+            elif want is not None and getters_s != want:
+                ctx.witness('getters', {'args': a, 'spelling': 'script'}, want, getters_s)
         model = resp.get('dt', resp)
         ctx.compare('dt-new', a, got['float'], model)
         if resp.get('spec', 'missing') != model:
@@ -300,11 +375,39 @@ def arith_cases(rng, n):
         else:
             k = rng.randint(-10 ** 9, 10 ** 9) * 1000 + rng.choice([0, 1, 500, 999])
             k = max(-10 ** 12, min(10 ** 12, k))
-        out.append((a, k, rng.random() < 0.4))
+        # a third of the datetimes carry extra microseconds (what datetimeNow() or a host global holds): whole-millisecond n must still come back
+        us = rng.choice([1, 499, 500, 501, 999, rng.randint(1, 999)]) if rng.random() < 0.33 else 0
+        out.append((a, k, rng.random() < 0.4, us))
     # a few that overflow the year range (the sum is null)
     for y, k in ((9000, 10 ** 12), (9000, 4 * 10 ** 13), (100, -10 ** 12), (100, -4 * 10 ** 12), (9999, 10 ** 11)):
-        out.append(([y, 6, 15, 0, 0, 0, 0], k, False))
+        out.append(([y, 6, 15, 0, 0, 0, 0], k, False, 0))
     return out
+
+
+TRANSITION_STEPS = [1800000, 3600000, 7200000, 86400000, 7 * 86400000, 3600000 - 1, 3600000 + 1, 43200000, 182 * 86400000]
+
+
+def zone_arith_cases(rng, zone, n):
+    """Arithmetic that starts next to one of the zone's own offset transitions and steps over it (d + n is wall-clock arithmetic, so
+    (d + n) - d must be n whether or not the UTC offset changes in between)."""
+    out = []
+    for _ in range(n):
+        a = zone_args(rng, zone)
+        k = rng.choice(TRANSITION_STEPS) * rng.choice([1, -1]) if rng.random() < 0.8 else rng.randint(-10 ** 8, 10 ** 8)
+        us = rng.choice([1, 499, 500, 501, 999, rng.randint(1, 999)]) if rng.random() < 0.33 else 0
+        out.append((a, k, rng.random() < 0.4, us))
+    return out
+
+
+def case4(case):
+    return tuple(case) + (0,) * (4 - len(case))
+
+
+def parts_floor(d):
+    """parts cut to the millisecond: for results that legitimately carry microseconds (arithmetic on a sub-millisecond host datetime)"""
+    if isinstance(d, datetime.datetime) and d.tzinfo is None:
+        return [d.year, d.month, d.day, d.hour, d.minute, d.second, d.microsecond // 1000]
+    return parts(d)
 
 
 EXPR_LR = {'binary': {'op': '-', 'left': {'group': {'binary': {'op': '+', 'left': {'variable': 'd'}, 'right': {'variable': 'n'}}}},
@@ -324,20 +427,22 @@ def num_out(x):
     return int(x) if x == int(x) else {'inexact': repr(x)}
 
 
-def impl_arith(args, n, as_int):
+def impl_arith(args, n, as_int, us=0):
     impl = fw.impl()
     d, _ = call_lib('datetimeNew', [float(a) for a in args])
     if d is None:
         return {'d': None}
     nv = int(n) if as_int else float(n)
     out = {'d': parts(d)}
+    if us:
+        d = d.replace(microsecond=d.microsecond + us)       # a host-supplied datetime with sub-millisecond precision
     for key, expr in (('lr', EXPR_LR), ('rl', EXPR_RL)):
         try:
             out[key] = num_out(impl['runtime'].evaluate_expression(expr, None, {'d': d, 'n': nv}))
         except Exception as exc:  # pylint: disable=broad-except
             out[key] = {'error': type(exc).__name__}
     try:
-        out['sum'] = parts(impl['runtime'].evaluate_expression(EXPR_SUM, None, {'d': d, 'n': nv}))
+        out['sum'] = parts_floor(impl['runtime'].evaluate_expression(EXPR_SUM, None, {'d': d, 'n': nv}))
     except Exception as exc:  # pylint: disable=broad-except
         out['sum'] = {'error': type(exc).__name__}
     return out
@@ -345,14 +450,17 @@ def impl_arith(args, n, as_int):
 
 def check_arith(ctx, st, case, got, resp, zone=None):
     """Compare one arithmetic case (implementation output `got`) with the model and with the property."""
-    a, n, as_int = case
+    a, n, as_int, us = case4(case)
     key = {'args': a, 'n': n, 'int': as_int}
+    if us:
+        key['us'] = us
     if zone:
         key['zone'] = zone
     d = oracle_new(a)
     want_sum = oracle_add(d, n) if d is not None else None
     st.case(key, nontrivial=n != 0 and d is not None, tags=['sum-null' if want_sum is None else 'ok', 'n-int' if as_int else 'n-float',
-                                                            'big' if abs(n) >= 10 ** 9 else 'small'] + ([zone] if zone else []))
+                                                            'big' if abs(n) >= 10 ** 9 else 'small'] + ([zone] if zone else [])
+            + (['sub-ms>=500' if us >= 500 else 'sub-ms<500'] if us else []))
     if d is None:
         return
     model = {'d': d, 'sum': resp.get('dt'), 'lr': resp.get('diff'), 'rl': resp.get('diff')}
@@ -365,15 +473,17 @@ def check_arith(ctx, st, case, got, resp, zone=None):
 
 
 ARITH_RULE = ('(d + n) - d and (n + d) - d through evaluate_expression for integral n up to +-1e12 (float and int spellings), d from '
-              'datetimeNew on the quantifier ranges; in-process and again inside every TZ worker; non-trivial = n != 0')
+              'datetimeNew on the quantifier ranges, a third of them with 1..999 extra microseconds (sub-millisecond host datetimes; the model '
+              'sees the value cut to the millisecond); in-process and again inside every TZ worker, there also starting next to the zone\'s own '
+              'offset transitions with steps that cross them; non-trivial = n != 0')
 
 
 def stream_arith(ctx, n_cases, seed_name='dt-arith'):
     st = ctx.stream('dt-arith', ARITH_RULE)
     rng = ctx.rng(seed_name)
-    cases = [(rec['args'], rec['n'], rec.get('int', False)) for rec in corpus('dt-arith')] + arith_cases(rng, n_cases)
+    cases = [(rec['args'], rec['n'], rec.get('int', False), rec.get('us', 0)) for rec in corpus('dt-arith')] + arith_cases(rng, n_cases)
     reqs = []
-    for a, n, _ in cases:
+    for a, n, _, _ in cases:
         d = oracle_new(a)
         reqs.append({'op': 'add', 'dt': d if d is not None else [1, 1, 1, 0, 0, 0, 0], 'n': n})
     resps = ctx.driver.batch(reqs)
@@ -399,6 +509,8 @@ _TRANSITION_DAYS = {}
 
 def transition_days(zone):
     """Local dates on which the zone's UTC offset changes (found by scanning zoneinfo day by day over sample years)."""
+    if zone.startswith('<'):
+        return []                   # POSIX fixed offset
     if zone not in _TRANSITION_DAYS:
         import zoneinfo  # pylint: disable=import-outside-toplevel
         z = zoneinfo.ZoneInfo(zone)
@@ -492,17 +604,196 @@ def mutate(rng, text):
     return text[:i] + text[i].swapcase() + text[i + 1:]
 
 
-def stream_iso(ctx, n_rt, n_text, n_arith, zones=None):
-    st = ctx.stream('dt-iso', 'per TZ (Python side in a subprocess with TZ=<zone>): datetimeNew -> datetimeISOFormat -> datetimeISOParse round trip, '
+def fixed_zone(minutes):
+    """POSIX TZ string of a fixed whole-minute offset, e.g. -210 -> '<-0330>3:30' (POSIX counts west of Greenwich positive)."""
+    sign, a = ('-' if minutes < 0 else '+'), abs(minutes)
+    return '<%s%02d%02d>%s%d:%02d' % (sign, a // 60, a % 60, '' if minutes < 0 else '-', a // 60, a % 60)
+
+
+def zone_available(zone):
+    return zone.startswith('<') or os.path.exists(os.path.join(ZONEINFO_DIR, zone))
+
+
+def extra_zones(ctx, name='zones'):
+    """The reduced-budget zones of this run (see ZONES_ALWAYS / ZONE_POOL)."""
+    rng = ctx.rng(name)
+    n_pool, n_fixed, n_any = ctx.scale(2, len(ZONE_POOL)), ctx.scale(2, 8), ctx.scale(1, 12)
+    out = list(ZONES_ALWAYS) + rng.sample(ZONE_POOL, n_pool)
+    # one negative offset with a minute part, the rest anywhere in -23:59..+23:59 (biased to the inhabited range)
+    out.append(fixed_zone(-(rng.randint(0, 13) * 60 + rng.choice([1, 15, 30, 45, 59, rng.randint(1, 59)]))))
+    for _ in range(n_fixed - 1):
+        out.append(fixed_zone(rng.choice([rng.randint(-1439, 1439), rng.randint(-720, 840), rng.choice([-1439, -1, 1, 59, -59, 1439, 840, -720])])))
+    try:
+        import zoneinfo  # pylint: disable=import-outside-toplevel
+        names = sorted(z for z in zoneinfo.available_timezones() if '/' in z and not z.startswith(('posix/', 'right/', 'Etc/')))
+    except Exception:  # pylint: disable=broad-except
+        names = []
+    if names:
+        out += rng.sample(names, min(n_any, len(names)))
+    seen, res = set(ZONES), []
+    for z in out:
+        if z not in seen:
+            seen.add(z)
+            res.append(z)
+    return res
+
+
+AWARE_ZONES = ['Asia/Tokyo', 'America/Los_Angeles', 'Europe/Paris', 'Australia/Lord_Howe', 'America/St_Johns']
+HOST_RULE = ('per TZ: HOST-supplied datetimes the library itself never creates - naive with 1..999 extra microseconds, fold=1, timezone-aware (UTC, fixed '
+             'offsets -23:59..+23:59, ZoneInfo zones), subclasses of datetime, plain date objects and subclasses - biased to the zone\'s own offset '
+             'transitions, with host numbers n (float, int, int/float subclasses, IntEnum members) in steps that cross the transitions: '
+             '(d + n) - d = n, (n + d) - d = n, the same again for e = d + n, the sum cut to the millisecond = reference local time + n, through '
+             'evaluate_expression or execute_script (host globals); ISO round trip of the host datetime. Model: add / isoFormat / isoParse on the '
+             'local value cut to the millisecond (the driver has no notion of tzinfo, fold or subclasses - those are implementation-side oracles '
+             'against zoneinfo); non-trivial = not a plain millisecond-aligned naive datetime with a float n')
+
+
+def host_cases(rng, zone, n):
+    out = []
+    avail = [z for z in AWARE_ZONES if zone_available(z)]
+    while len(out) < n:
+        p = oracle_new(zone_args(rng, zone))
+        if p is None:
+            continue
+        req = {'kind': 'host', 'p': p}
+        r = rng.random()
+        if r < 0.30:
+            pass                                    # naive
+        elif r < 0.42:
+            req['fold'] = 1                         # naive, second pass of a repeated local time (or a no-op elsewhere)
+        elif r < 0.52:
+            req['tz'] = 'utc'
+        elif r < 0.70:
+            req['tz'] = rng.choice([0, -570, -210, -30, 30, 345, 525, 765, 840, -720, -1439, 1439, rng.randint(-1439, 1439)])
+        elif r < 0.80 and avail:
+            req['tz'] = rng.choice(avail + ([zone] if not zone.startswith('<') else []))
+            if rng.random() < 0.3:
+                req['fold'] = 1
+        elif r < 0.93:
+            req['cls'] = 'date'
+        else:
+            req['cls'] = 'datesub'
+        if 'cls' not in req and rng.random() < 0.25:
+            req['cls'] = 'sub'
+        if rng.random() < 0.7:
+            req['us'] = rng.choice([1, 499, 500, 501, 999, rng.randint(1, 999)])
+        r = rng.random()
+        if r < 0.55:
+            req['n'] = rng.choice(TRANSITION_STEPS) * rng.choice([1, -1])
+        elif r < 0.7:
+            req['n'] = rng.choice([0, 1, -1, 999, -999, 1000])
+        elif r < 0.85:
+            req['n'] = rng.randint(-10 ** 8, 10 ** 8)
+        else:
+            req['n'] = rng.randint(-10 ** 12, 10 ** 12)
+        req['m'] = rng.choice([0, 1, -1, 500, 3600000, -3600000, rng.randint(-10 ** 7, 10 ** 7)])
+        req['nkind'] = rng.choice(NUMBER_KINDS)
+        req['via'] = rng.choice(['expr', 'script'])
+        out.append(req)
+    return out
+
+
+def host_verdicts(req, r):
+    """The property oracles of one host case -> [(oracle, expected, actual)] (empty = holds). Shared by the stream and replay."""
+    out = []
+    loc = r.get('local')
+    if loc is None:
+        return out                  # the aware datetime has no local value inside years 1..9999
+    n, m = req['n'], req.get('m', 0)
+    aware = req.get('tz') is not None and req.get('cls') not in ('date', 'datesub')
+    want_sum = oracle_add(loc, n)
+    want = n if want_sum is not None else None
+    if (not aware or r.get('agree')) and r.get('sum') != want_sum:
+        out.append(('host-add-ms', want_sum, r.get('sum')))
+    if r.get('lr') != want or r.get('rl') != want:
+        out.append(('host-add-sub', want, {'(d+n)-d': r.get('lr'), '(n+d)-d': r.get('rl')}))
+    if want_sum is not None and r.get('sum') == want_sum:
+        want_e = m if oracle_add(want_sum, m) is not None else None
+        if r.get('e_lr') != want_e or r.get('e_rl') != want_e:
+            out.append(('host-add-sub-again', want_e, {'(e+m)-e': r.get('e_lr'), '(m+e)-e': r.get('e_rl'), 'e=d+n': r.get('sum')}))
+    exists = bool(r.get('zi_exists')) and bool(r.get('libc_exists'))
+    agree = (not aware or r.get('agree')) and r.get('zi_off') == r.get('os_off') and r.get('zi_exists') == r.get('libc_exists')
+    off = r.get('zi_off')
+    if exists and agree and off is not None and off % 60 == 0 and r.get('p') != loc:
+        out.append(('host-iso-roundtrip', loc, {'text': r.get('text'), 'parsed': r.get('p')}))
+    if (not aware or r.get('agree')) and r.get('pd') != loc[:3] + [0, 0, 0, 0]:
+        out.append(('host-iso-date-roundtrip', loc[:3] + [0, 0, 0, 0], {'text': r.get('datetext'), 'parsed': r.get('pd')}))
+    if not isinstance(r.get('text'), str) or strict_iso(r['text']) is None:
+        out.append(('host-iso-format-shape', 'a valid ISO datetime text', r.get('text')))
+    return out
+
+
+def host_tags(req, r):
+    tags = ['date' if req.get('cls') in ('date', 'datesub') else 'aware' if req.get('tz') is not None else 'naive']
+    if req.get('cls') in ('sub', 'datesub'):
+        tags.append('subclass')
+    if req.get('fold'):
+        tags.append('fold=1')
+    us = req.get('us', 0)
+    if us and tags[0] != 'date':
+        tags.append('sub-ms>=500' if us >= 500 else 'sub-ms<500')
+    tags += ['n-' + req.get('nkind', 'float'), 'via-' + req.get('via', 'expr')]
+    if r.get('local') is None:
+        tags.append('no-local-value')
+    elif r.get('fold'):
+        tags.append('in-fold')
+    elif not r.get('zi_exists'):
+        tags.append('in-gap')
+    return tags
+
+
+def check_host(ctx, sh, zone, cases, resps):
+    mreqs = []
+    for req, r in zip(cases, resps):
+        loc = r.get('local')
+        if loc is not None:
+            mreqs.append({'op': 'add', 'dt': loc, 'n': req['n']})
+            mreqs.append({'op': 'isoFormat', 'dt': loc, 'off': r['zi_off'] if r.get('zi_off') is not None else 0, 'us': r.get('local_us') or 0})
+            mreqs.append({'op': 'isoParse', 'text': r['text'] if isinstance(r.get('text'), str) else '', 'off': (r.get('ref') or {}).get('zi') or 0})
+    mresps = iter(ctx.driver.batch(mreqs))
+    for req, r in zip(cases, resps):
+        key = dict(req, zone=zone)
+        del key['kind']
+        plain = not any(req.get(k) for k in ('fold', 'tz', 'cls', 'us')) and req.get('nkind') == 'float'
+        sh.case(key, nontrivial=not plain and r.get('local') is not None, tags=[zone] + host_tags(req, r))
+        if r.get('local') is None:
+            continue
+        m_add, m_fmt, m_parse = next(mresps), next(mresps), next(mresps)
+        aware = req.get('tz') is not None and req.get('cls') not in ('date', 'datesub')
+        if not aware or r.get('agree'):
+            ctx.compare('dt-host', dict(key, what='add'), {k: r.get(k) for k in ('sum', 'lr', 'rl')},
+                        {'sum': m_add.get('dt'), 'lr': m_add.get('diff'), 'rl': m_add.get('diff')})
+        exists = bool(r.get('zi_exists')) and bool(r.get('libc_exists'))
+        agree = (not aware or r.get('agree')) and r.get('zi_off') == r.get('os_off') and r.get('zi_exists') == r.get('libc_exists')
+        # (an aware instant inside a repeated hour is normalised to the naive wall time, which names the first pass: the worker's reference
+        # local value is that naive time, fold=0)
+        if exists and agree:
+            ctx.compare('dt-host', dict(key, what='format'), r.get('text'), m_fmt.get('text'))
+        ref = r.get('ref')
+        if isinstance(r.get('text'), str) and ref is not None and ref.get('libc') in (None, ref.get('zi')):
+            ctx.compare('dt-host', dict(key, what='parse', text=r['text']), r.get('p'), m_parse.get('dt'))
+        for oracle, expected, actual in host_verdicts(req, r):
+            ctx.witness(oracle, key, expected, actual)
+
+
+def stream_iso(ctx, n_rt, n_text, n_arith, zones=None, n_host=0):
+    st = ctx.stream('dt-iso', 'per TZ (Python side in a subprocess with TZ=<zone>; 8 full-budget zones + always-on negative-offset-with-minutes zones + a '
+                              'per-seed rotation of classed tz database zones, POSIX fixed offsets -23:59..+23:59 and random tz database names at a '
+                              'reduced budget): datetimeNew (a third with extra microseconds, some marked fold=1) -> datetimeISOFormat -> datetimeISOParse round trip, '
                               'model formatter/parser given the offsets zoneinfo reports, ISO date form; non-trivial = the local time exists, has a '
                               'whole-minute offset and a non-zero offset or millisecond part')
     sp = ctx.stream('dt-iso-text', 'per TZ: datetimeISOParse on valid ISO texts (1-6 fraction digits, assorted offsets) and malformed ones (fixed list + '
-                                   'random single-character mutations): strict validity oracle (invalid -> null, never an exception), value oracle via '
+                                   'random single-character mutations), a tenth of them as a str subclass, by value_parse_datetime, the library '
+                                   'function and evaluate_expression: strict validity oracle (invalid -> null, never an exception), value oracle via '
                                    'zoneinfo, model parser; non-trivial = text within edit distance 1 of a valid text or valid')
     sa = ctx.stream('dt-arith', ARITH_RULE)
-    missing = [z for z in (zones or ZONES) if not os.path.exists(os.path.join(ZONEINFO_DIR, z))]
+    sh = ctx.stream('dt-host', HOST_RULE)
+    missing = [z for z in (zones or ZONES) if not zone_available(z)]
     if missing:
         ctx.notes.append('zones skipped (no zoneinfo file): ' + ', '.join(missing))
+    # generate every zone's requests first, run the zone workers concurrently (one subprocess per zone, answers keyed by zone: the result
+    # does not depend on scheduling), then evaluate zone by zone
+    plans = []
     for zone in (zones or ZONES):
         if zone in missing:
             continue
@@ -510,18 +801,28 @@ def stream_iso(ctx, n_rt, n_text, n_arith, zones=None):
         rt_cases = [rec['args'] for rec in corpus('dt-iso') if rec.get('zone') in (None, zone)] + [zone_args(rng, zone) for _ in range(n_rt)]
         valid = iso_text_cases(rng, n_text)
         texts = [rec['text'] for rec in corpus('dt-iso-text')] + MALFORMED_FIXED + valid + [mutate(rng, rng.choice(valid)) for _ in range(n_text)]
-        ar_cases = arith_cases(rng, n_arith)
+        ar_cases = arith_cases(rng, n_arith - n_arith // 2) + zone_arith_cases(rng, zone, n_arith // 2)
+        ho_cases = [dict(rec['req'], kind='host') for rec in corpus('dt-host') if rec.get('zone') in (None, zone)] + host_cases(rng, zone, n_host)
         # a third of the round trips start from a datetime carrying extra microseconds (what datetimeNow() returns): ISO text is cut to the millisecond
         rt_us = [rng.choice([1, 499, 500, 501, 999, rng.randint(1, 999)]) if rng.random() < 0.33 else 0 for _ in rt_cases]
-        reqs = ([{'kind': 'rt', 'args': a, 'us': us} for a, us in zip(rt_cases, rt_us)] + [{'kind': 'parse', 'text': t} for t in texts]
-                + [{'kind': 'arith', 'args': a, 'n': n, 'as_int': i} for a, n, i in ar_cases])
-        resps = run_worker(zone, reqs)
+        # some are marked fold=1 by the host (PEP 495): the second pass of a repeated local time, no effect elsewhere
+        rt_fold = [1 if rng.random() < 0.3 else 0 for _ in rt_cases]
+        tx_sub = [rng.random() < 0.1 for _ in texts]
+        reqs = ([{'kind': 'rt', 'args': a, 'us': us, 'fold': fo} for a, us, fo in zip(rt_cases, rt_us, rt_fold)]
+                + [{'kind': 'parse', 'text': t, 'sub': sub} for t, sub in zip(texts, tx_sub)]
+                + [{'kind': 'arith', 'args': a, 'n': n, 'as_int': i, 'us': us} for a, n, i, us in ar_cases] + ho_cases)
+        plans.append((zone, rt_cases, rt_us, rt_fold, valid, texts, tx_sub, ar_cases, ho_cases, reqs))
+    with concurrent.futures.ThreadPoolExecutor(max_workers=4) as pool:
+        futures = [pool.submit(run_worker, plan[0], plan[-1]) for plan in plans]
+    for (zone, rt_cases, rt_us, rt_fold, valid, texts, tx_sub, ar_cases, ho_cases, reqs), future in zip(plans, futures):
+        resps = future.result()
         bad = [r for r in resps if 'worker_error' in r or 'bad' in r]
         if bad:
             raise fw.Infra(f'c16_tzworker TZ={zone}: {bad[0]}')
         rt_resps = resps[:len(rt_cases)]
         tx_resps = resps[len(rt_cases):len(rt_cases) + len(texts)]
-        ar_resps = resps[len(rt_cases) + len(texts):]
+        ar_resps = resps[len(rt_cases) + len(texts):len(rt_cases) + len(texts) + len(ar_cases)]
+        ho_resps = resps[len(rt_cases) + len(texts) + len(ar_cases):]
 
         # ---- round trips ----
         mreqs = []
@@ -534,11 +835,13 @@ def stream_iso(ctx, n_rt, n_text, n_arith, zones=None):
             mreqs.append({'op': 'isoParse', 'text': r['text'] if isinstance(r.get('text'), str) else '', 'off': ref.get('zi') or 0})
             mreqs.append({'op': 'isoParse', 'text': r['datetext'] if isinstance(r.get('datetext'), str) else '', 'off': 0})
         mresps = iter(ctx.driver.batch(mreqs))
-        for a, us, r in zip(rt_cases, rt_us, rt_resps):
+        for a, us, fo, r in zip(rt_cases, rt_us, rt_fold, rt_resps):
             d = r.get('d')
             key = {'zone': zone, 'args': a}
             if us:
                 key['us'] = us
+            if fo:
+                key['fold'] = 1
             if d != oracle_new(a):
                 ctx.witness('ordinal-arithmetic', {'args': a, 'spelling': 'float', 'zone': zone}, oracle_new(a), d)
             if d is None:
@@ -549,7 +852,10 @@ def stream_iso(ctx, n_rt, n_text, n_arith, zones=None):
             agree = r.get('zi_off') == r.get('os_off') and r.get('zi_exists') == r.get('libc_exists')
             off = r.get('zi_off')
             whole = off is not None and off % 60 == 0
-            tags = [zone, 'exists' if exists else 'gap', 'whole-minute' if whole else 'seconds-offset'] + (['fold'] if r.get('fold') else []) + (['sub-ms'] if us else [])
+            tags = ([zone, 'exists' if exists else 'gap', 'whole-minute' if whole else 'seconds-offset'] + (['fold'] if r.get('fold') else [])
+                    + (['sub-ms'] if us else []) + (['fold=1'] if fo else []) + (['second-pass'] if fo and r.get('fold') else []))
+            if whole and off < 0 and off % 3600:
+                tags.append('negative-offset-with-minutes')
             if not agree:
                 tags.append('zoneinfo-vs-libc-differ')
             st.case(key, nontrivial=exists and whole and (off != 0 or d[6] != 0), tags=tags)
@@ -572,16 +878,18 @@ def stream_iso(ctx, n_rt, n_text, n_arith, zones=None):
         # ---- texts ----
         valid_set = set(valid)
         mresps = ctx.driver.batch([{'op': 'isoParse', 'text': t, 'off': ((r.get('ref') or {}).get('zi') or 0)} for t, r in zip(texts, tx_resps)])
-        for t, r, m in zip(texts, tx_resps, mresps):
+        for t, sub, r, m in zip(texts, tx_sub, tx_resps, mresps):
             key = {'zone': zone, 'text': t}
+            if sub:
+                key['sub'] = True
             kind = strict_iso(t)
             ref = r.get('ref')
             sp.case(key, nontrivial=True, tags=[zone, 'valid-' + kind[0] if kind else 'invalid',
                                                 'null' if r.get('p') is None else 'parsed', 'from-valid-list' if t in valid_set else 'other'])
             if ref is None or ref.get('libc') in (None, ref.get('zi')):
                 ctx.compare('dt-iso-text', key, r.get('p'), m.get('dt'))
-            if r.get('lib') != r.get('p'):
-                ctx.witness('iso-parse-entry-points', key, r.get('p'), r.get('lib'))
+            if r.get('lib') != r.get('p') or r.get('ex') != r.get('p'):
+                ctx.witness('iso-parse-entry-points', key, r.get('p'), {'library': r.get('lib'), 'evaluate_expression': r.get('ex')})
             if kind is None:
                 if r.get('p') is not None:
                     ctx.witness('iso-reject', key, None, r.get('p'))
@@ -593,26 +901,35 @@ def stream_iso(ctx, n_rt, n_text, n_arith, zones=None):
                     ctx.witness('iso-parse-value', key, ref['local'], r.get('p'))
 
         # ---- arithmetic inside the zone ----
-        mresps = ctx.driver.batch([{'op': 'add', 'dt': oracle_new(a) or [1, 1, 1, 0, 0, 0, 0], 'n': n} for a, n, _ in ar_cases])
+        mresps = ctx.driver.batch([{'op': 'add', 'dt': oracle_new(a) or [1, 1, 1, 0, 0, 0, 0], 'n': n} for a, n, _, _ in ar_cases])
         for case, got, m in zip(ar_cases, ar_resps, mresps):
             check_arith(ctx, sa, case, got, m, zone=zone)
+
+        # ---- host-supplied datetimes and numbers inside the zone ----
+        check_host(ctx, sh, zone, ho_cases, ho_resps)
 
 
 def streams(ctx):
     stream_new(ctx, ctx.scale(25000, 500000), ctx.scale(2500, 50000))
     stream_arith(ctx, ctx.scale(12000, 250000))
-    stream_iso(ctx, ctx.scale(2000, 40000), ctx.scale(800, 15000), ctx.scale(400, 8000))
+    stream_iso(ctx, ctx.scale(2000, 40000), ctx.scale(800, 15000), ctx.scale(400, 8000), n_host=ctx.scale(500, 6000))
+    # the same four streams in further host time zones (fixed always-on ones + a per-seed rotation), at a reduced budget each
+    stream_iso(ctx, ctx.scale(500, 1500), ctx.scale(150, 500), ctx.scale(100, 400), zones=extra_zones(ctx), n_host=ctx.scale(200, 800))
 
 
 def search(ctx):
-    """Directed search with a larger budget: all three oracles, fresh seeds."""
+    """Directed search with a larger budget: all oracles, fresh seeds."""
     stream_new(ctx, ctx.scale(40000, 150000), ctx.scale(4000, 15000), seed_name='search-new')
     if ctx.witnesses:
         return
     stream_arith(ctx, ctx.scale(20000, 80000), seed_name='search-arith')
     if ctx.witnesses:
         return
-    stream_iso(ctx, ctx.scale(3000, 8000), ctx.scale(1500, 3000), ctx.scale(300, 1000))
+    stream_iso(ctx, ctx.scale(3000, 8000), ctx.scale(1500, 3000), ctx.scale(300, 1000), n_host=ctx.scale(600, 2000))
+    if ctx.witnesses:
+        return
+    stream_iso(ctx, ctx.scale(600, 2000), ctx.scale(200, 600), ctx.scale(150, 500), zones=extra_zones(ctx, 'search-zones') + ZONE_POOL[:8],
+               n_host=ctx.scale(300, 1000))
 
 
 def replay(witness):
@@ -623,19 +940,32 @@ def replay(witness):
         if zone:
             r = run_worker(zone, [{'kind': 'rt', 'args': inp['args']}])[0]
             return r.get('d') != oracle_new(inp['args'])
+        if inp.get('spelling') == 'hostnum':
+            return impl_new_host(inp['args'], inp.get('idx', 0)) != oracle_new(inp['args'])
+        if inp.get('spelling') == 'script':
+            return impl_new_script(inp['args'])[0] != oracle_new(inp['args'])
         return impl_new(inp['args'])[inp.get('spelling', 'float')] != oracle_new(inp['args'])
     if oracle == 'getters':
+        if inp.get('spelling') == 'script':
+            got_s, getters_s = impl_new_script(inp['args'])
+            return getters_s != got_s
         got = impl_new(inp['args'])
         return got.get('getters') != got['float']
+    if oracle.startswith('host-'):
+        req = {k: v for k, v in inp.items() if k != 'zone'}
+        req['kind'] = 'host'
+        r = run_worker(zone or 'UTC', [req])[0]
+        return any(o == oracle for o, _, _ in host_verdicts(req, r))
     if oracle in ('add-ms', 'add-sub'):
-        case = (inp['args'], inp['n'], inp.get('int', False))
-        got = run_worker(zone, [{'kind': 'arith', 'args': case[0], 'n': case[1], 'as_int': case[2]}])[0] if zone else impl_arith(*case)
+        case = (inp['args'], inp['n'], inp.get('int', False), inp.get('us', 0))
+        got = (run_worker(zone, [{'kind': 'arith', 'args': case[0], 'n': case[1], 'as_int': case[2], 'us': case[3]}])[0] if zone
+               else impl_arith(*case))
         d = oracle_new(case[0])
         want_sum = oracle_add(d, case[1]) if d is not None else None
         want = case[1] if want_sum is not None else None
         return got.get('sum') != want_sum or got.get('lr') != want or got.get('rl') != want
     if oracle in ('iso-roundtrip', 'iso-date-roundtrip', 'iso-format-shape'):
-        r = run_worker(zone, [{'kind': 'rt', 'args': inp['args'], 'us': inp.get('us', 0)}])[0]
+        r = run_worker(zone, [{'kind': 'rt', 'args': inp['args'], 'us': inp.get('us', 0), 'fold': inp.get('fold', 0)}])[0]
         d = r.get('d')
         if d is None:
             return True
@@ -645,9 +975,9 @@ def replay(witness):
             return not isinstance(r.get('text'), str) or strict_iso(r['text']) is None
         return r.get('p') != d
     if oracle in ('iso-reject', 'iso-parse-date', 'iso-parse-value', 'iso-parse-entry-points'):
-        r = run_worker(zone or 'UTC', [{'kind': 'parse', 'text': inp['text']}])[0]
+        r = run_worker(zone or 'UTC', [{'kind': 'parse', 'text': inp['text'], 'sub': bool(inp.get('sub'))}])[0]
         if oracle == 'iso-parse-entry-points':
-            return r.get('lib') != r.get('p')
+            return r.get('lib') != r.get('p') or r.get('ex') != r.get('p')
         return r.get('p') != witness.get('expected')
     return True
 
@@ -657,8 +987,16 @@ LEVEL_TEXT = ('Theorems for ALL integer arguments (no bound): the carry chain, m
               'instant leaves years 1..9999; CPython\'s _ord2ymd is proved to invert _ymd2ord on every integer ordinal; getters recompose to the '
               'instant and re-normalising is the identity; (d + n) - d = n on the integer-millisecond model; ISO text: parse(format t) = t under '
               'explicit zone hypotheses (_partial), and the parser returns null outside the two anchored shapes / for invalid fields. '
-              'The Python side runs per TZ in a subprocess for the 8 zones of the quantifier; independent oracles: date.toordinal/timedelta, zoneinfo.')
+              'The Python side runs per TZ in a subprocess for the 8 zones of the quantifier plus further zones per run (negative offsets with a minute part, a per-seed '
+              'rotation of tz database zones and POSIX fixed offsets); host-supplied datetimes/numbers (sub-millisecond, aware, fold=1, subclasses, dates) are '
+              'checked on the implementation side; independent oracles: date.toordinal/timedelta, zoneinfo.')
 LEVEL_NOTE = ('proof for normalisation / getters / integer arithmetic / rejection; _partial for the ISO round trip (zone abstracted by two offset '
               'functions with the existence assumption as hypothesis; LMT offsets with seconds are shown to break the round trip) and for the float '
               'rounding of datetime - datetime (relative-error model of IEEE doubles). Trusted: Lean kernel, extract.py, harness + tz worker, '
               'zoneinfo/libc as zone reference. Modelled not verified: calendar.monthrange, datetime constructor/arithmetic, astimezone(), re.')
+
+
+# extension: further model code, theorems and streams (DESIGN 13.7)
+from props import c16x as _ext  # noqa: E402  pylint: disable=wrong-import-position
+_ext.EXTRA_ROOTS = ['Drv.C16X']
+fw.attach_extension(globals(), _ext)
